@@ -41,6 +41,12 @@ int main(void)
 			fake_fs.magic = EXT2_ET_MAGIC_EXT2FS_FILSYS;
 			fake_fs.flags = EXT2_FLAG_64BITS;
 			fake_fs.cluster_ratio_bits = e;
+			if (a == 0) {
+				/* the legacy 32-bit bitmap (gen_bitmap.c), reached through the same generic calls */
+				fake_fs.flags = 0;
+				err = ext2fs_make_generic_bitmap(EXT2_ET_MAGIC_BLOCK_BITMAP, &fake_fs, (__u32) b, (__u32) c, (__u32) d,
+								 "h_bitmap", 0, &bm);
+			} else
 			err = ext2fs_alloc_generic_bmap(&fake_fs, EXT2_ET_MAGIC_BLOCK_BITMAP64,
 							(int) a, b, c, d, "h_bitmap", &bm);
 			if (err) { printf("ALLOCFAIL %ld\n", (long) err); return 2; }
